@@ -1,6 +1,7 @@
 import logging
 
 import actions
+import column
 import schema
 from objtypes import strict_equal
 
@@ -262,7 +263,9 @@ class DocActions(object):
     # Copy over all columns from the old table to the new.
     new_table = self._engine.tables[new_table_id]
     for new_column in new_table.all_columns.values():
-      if not new_column.is_private():
+      # Lookup maps (virtual '#...' columns) hold no data and get rebuilt; the old table may no
+      # longer have the one that a new table always starts with, if it was cleaned up as unused.
+      if not new_column.is_private() and not column.is_virtual_column(new_column.col_id):
         new_column.copy_from_column(old_table.get_column(new_column.col_id))
     new_table.grow_to_max()   # We need to bring formula columns to the right size too.
 
